@@ -60,6 +60,40 @@ def cellJ : Cell → Json
       ("header", natJ m.header), ("dev", natJ m.dev), ("props", natJ m.props),
       ("mstore", natJ m.mstore)]
 
+
+def vinfoJ (i : VInfo) : Json :=
+  obj [("name", optJ Json.str i.name), ("doc", optJ Json.str i.doc), ("const", optJ natJ i.const),
+       ("type", optJ (fun t => cellJ (.type t)) i.type),
+       ("shape", optJ (fun (sh : List Dim × List (Option String)) =>
+          Json.arr #[Json.arr (sh.1.map dimJ).toArray, Json.arr (sh.2.map (optJ Json.str)).toArray]) i.shape),
+       ("props", pairsJ Json.str i.props), ("mdata", pairsJ Json.str i.mdata), ("minvalid", strsJ i.minvalid)]
+
+mutual
+partial def sgraphJ : SGraph → Json
+  | .mk name doc opsets ins inits nodes outs props mdata minvalid =>
+    obj [("name", optJ Json.str name), ("doc", optJ Json.str doc),
+         ("opsets", pairsJ (fun (i : Int) => toJson i) opsets),
+         ("inputs", Json.arr (ins.map vinfoJ).toArray), ("inits", Json.arr (inits.map vinfoJ).toArray),
+         ("nodes", Json.arr (nodes.map snodeJ).toArray), ("outputs", Json.arr (outs.map vinfoJ).toArray),
+         ("props", pairsJ Json.str props), ("mdata", pairsJ Json.str mdata), ("minvalid", strsJ minvalid)]
+partial def snodeJ : SNode → Json
+  | .mk name doc domain op overload version ins outs attrs props mdata minvalid dev =>
+    obj [("name", optJ Json.str name), ("doc", optJ Json.str doc), ("domain", domain), ("op", op),
+         ("overload", overload), ("version", optJ (fun (i : Int) => toJson i) version),
+         ("inputs", Json.arr (ins.map (optJ (optJ Json.str))).toArray),
+         ("outputs", Json.arr (outs.map vinfoJ).toArray),
+         ("attrs", Json.arr (attrs.map sattrJ).toArray),
+         ("props", pairsJ Json.str props), ("mdata", pairsJ Json.str mdata), ("minvalid", strsJ minvalid),
+         ("dev", Json.arr (dev.map fun c => Json.arr #[natJ c.1,
+            Json.arr (c.2.map fun sp => Json.arr #[natJ sp.1, optJ (optJ Json.str) sp.2]).toArray]).toArray)]
+partial def sattrJ : SAttr → Json
+  | .plain name doc v => obj [("name", name), ("doc", optJ Json.str doc),
+      ("v", match v with | .plain p => obj [("plain", natJ p)] | .ref p => obj [("ref", natJ p)] | _ => Json.null)]
+  | .graph name doc g => obj [("name", name), ("doc", optJ Json.str doc), ("graph", sgraphJ g)]
+  | .graphs name doc gs => obj [("name", name), ("doc", optJ Json.str doc),
+      ("graphs", Json.arr (gs.map sgraphJ).toArray)]
+end
+
 /-! parsing -/
 
 def getOpt (j : Json) (k : String) (f : Json → Except String α) : Except String (Option α) :=
@@ -246,6 +280,20 @@ def handle : Handler := fun m j =>
       w := w'
       outs := outs.push (outcomeJ r)
     return obj [("outcomes", Json.arr outs), ("world", Json.arr (w.map cellJ).toArray)]
+  | "clone.ser" => some do
+    -- `serGraph` of a graph and of its clone, in the heap after cloning
+    let w0 ← (← getArr j "world").mapM asCell
+    let src ← getNat j "src"
+    let k := (j.getObjValAs? Nat "k").toOption.getD 8
+    let before := serGraph k w0 src
+    let (r, w1) ← runStep w0 (← j.getObjVal? "clone")
+    match r with
+    | .ok (some g') =>
+      let a := (serGraph k w1 src).map sgraphJ
+      let b := (serGraph k w1 g').map sgraphJ
+      return obj [("outcome", outcomeJ r), ("defined", before.isSome),
+                  ("same_after", (before.map sgraphJ) == a), ("equal", a == b)]
+    | _ => return obj [("outcome", outcomeJ r), ("defined", before.isSome)]
   | "clone.history" => some do
     -- a clone step followed by `runHistory` on a list of edits
     let w0 ← (← getArr j "world").mapM asCell
